@@ -62,10 +62,10 @@ func cmdDump(args []string) int {
 }
 
 type propConfig struct {
-	Packages []string `json:"packages"`
-	Sweep    string   `json:"sweep,omitempty"` // zero-annotation sweep to add (mechanism-frames | panic-freedom)
-	Roots    []string `json:"roots,omitempty"` // panic-freedom: substrings of function keys that are entry points
-	Exclude  []string `json:"exclude,omitempty"`
+	Packages []string       `json:"packages"`
+	Sweep    string         `json:"sweep,omitempty"` // zero-annotation sweep to add (mechanism-frames | panic-freedom)
+	Roots    []string       `json:"roots,omitempty"` // panic-freedom: substrings of function keys that are entry points
+	Exclude  []string       `json:"exclude,omitempty"`
 	Bounded  []boundedCheck `json:"bounded,omitempty"` // bounded stand-ins run on every check
 }
 
